@@ -25,11 +25,36 @@ func unhex(s string) []byte {
 	if err != nil {
 		panic("bad hex " + s)
 	}
-	// hand the library slices whose capacity exceeds their length (sub-slices of larger
-	// buffers are what real callers pass): len/cap confusions and append-aliasing then show
+	return guarded(b)
+}
+
+// guarded hands the library a slice whose capacity exceeds its length (sub-slices of larger
+// buffers are what real callers pass): len/cap confusions and append-aliasing then show.  The
+// spare region carries a sentinel and is checked after the operation: the library has no business
+// writing into a caller's buffer beyond the slice it was given.
+var guards [][]byte
+
+func guarded(b []byte) []byte {
 	out := make([]byte, len(b), (len(b)/64+1)*64)
 	copy(out, b)
+	full := out[:cap(out)]
+	for i := len(b); i < len(full); i++ {
+		full[i] = 0xee
+	}
+	guards = append(guards, out)
 	return out
+}
+
+func guardsIntact() bool {
+	for _, g := range guards {
+		full := g[:cap(g)]
+		for i := len(g); i < len(full); i++ {
+			if full[i] != 0xee {
+				return false
+			}
+		}
+	}
+	return true
 }
 
 func hexList(l [][]byte) string {
@@ -50,6 +75,12 @@ func plainErr(err error) string {
 
 // execLine runs one op; panics inside the library are reported as "panic".
 func execLine(line string) (out string) {
+	guards = guards[:0]
+	defer func() {
+		if !guardsIntact() {
+			out += " MUTATED(wrote into a caller's buffer beyond the slice)"
+		}
+	}()
 	defer func() {
 		if r := recover(); r != nil {
 			msg := fmt.Sprint(r)
